@@ -185,6 +185,12 @@ def f_register_keyword(rng, d):
     return d
 
 
+def f_register_keyword_other_case(rng, d):
+    # registers are matched without regard to letter case in source code: ORG, Lsb, bYTE0 are keywords too
+    d['general']['registers'].append(_case_variant(rng, rng.choice(KEYWORDS)))
+    return d
+
+
 def f_macro_is_instruction(rng, d):
     if not d.get('macros'):
         return None
@@ -283,6 +289,25 @@ def f_inverted_range(rng, d):
     return d
 
 
+def f_inverted_relative_range(rng, d):
+    ocs = [oc for oc in walk_operand_configs(d) if oc.get('type') == 'relative_address' and isinstance(oc.get('argument'), dict)]
+    if not ocs:
+        return None
+    oc = rng.choice(ocs)
+    lo = rng.choice([10, 0, -3, 1])
+    oc['argument']['min'], oc['argument']['max'] = lo, lo - rng.choice([1, 1, 20])
+    return d
+
+
+def f_zone_below_space(rng, d):
+    # a zone (GLOBAL itself, so that containment in GLOBAL cannot catch it) that starts below address 0
+    zs = [z for z in _zones(d) if z['name'] != 'GLOBAL']
+    top = (1 << d['general'].get('address_size', 16)) - 1
+    g = {'name': 'GLOBAL', 'start': rng.choice([-1, -16, -0x8000]), 'end': top}
+    d['predefined']['memory_zones'] = (zs + [g]) if rng.random() < 0.5 else ([g] + zs)
+    return d
+
+
 def _zones(d):
     return d.setdefault('predefined', {}).setdefault('memory_zones', [])
 
@@ -343,6 +368,7 @@ def f_min_version_garbage(rng, d):
 
 
 FAULTS = [f_no_general, f_no_instructions, f_no_operand_sets, f_mnemonic_keyword, f_macro_keyword, f_register_keyword,
+          f_register_keyword_other_case, f_inverted_relative_range, f_zone_below_space,
           f_macro_is_instruction, f_no_bytecode, f_no_count, f_unknown_set, f_count_vs_sets, f_count_vs_specific,
           f_undeclared_register, f_drop_register, f_inverted_range, f_zone_beyond_space, f_global_beyond_space, f_zone_inverted, f_zone_outside_global,
           f_global_after_origin, f_min_version_newer, f_min_version_older, f_min_version_garbage]
